@@ -429,26 +429,7 @@ func (ea *functionAnalysisState) transferFunction(instruction ssa.Instruction, g
 			rets = append(rets, nodes.ValueNode(instr))
 		}
 
-		if builtin, ok := instr.Call.Value.(*ssa.Builtin); ok {
-			err := transferCallBuiltin(g, instr, builtin, args, rets)
-			if err != nil {
-				ea.prog.logger.Warnf("Warning, escape analysis does not handle builtin: %s", err)
-			}
-		} else if callee := instr.Call.StaticCallee(); callee != nil {
-			ea.transferCallStaticCallee(instr, g, args, rets)
-		} else if instr.Call.IsInvoke() {
-			// If no static callee, either we have an indirect call, e.g. t3(t4) or a method invocation,
-			// e.g. invoke t3.Method(t8, t13).
-			assertGraphInvariants(g)
-			ea.transferCallInvoke(instr, g, args, rets)
-			if err := wellFormedEscapeGraph(g); err != nil {
-				panic(err)
-			}
-		} else {
-			//  Indirect call callees can be closures, bound methods, regular named functions, or thunks.
-			ea.transferCallIndirect(instr, g, args, rets)
-		}
-
+		ea.transferCall(instr, g, args, rets)
 		return
 
 	case *ssa.Go:
@@ -472,7 +453,11 @@ func (ea *functionAnalysisState) transferFunction(instruction ssa.Instruction, g
 		g.CallUnknown(args, []*Node{}, fmt.Sprintf("go at %v", instr.Parent().Prog.Fset.Position(instr.Pos())))
 		return
 	case *ssa.Defer:
-
+		// Pushing the call has no effect; the call itself is executed by RunDefers.
+		return
+	case *ssa.RunDefers:
+		ea.transferRunDefers(instr, g)
+		return
 	case *ssa.Index:
 		switch tp := instr.X.Type().Underlying().(type) {
 		case *types.Basic:
@@ -611,9 +596,55 @@ func (ea *functionAnalysisState) transferFunction(instruction ssa.Instruction, g
 	}
 }
 
-func (ea *functionAnalysisState) transferCallStaticCallee(instrType *ssa.Call, g *EscapeGraph, args []*Node, rets []*Node) {
+// transferCall computes the effect of the call described by instr, which is either a *ssa.Call or
+// a *ssa.Defer whose deferred call is being executed, on g. rets is empty for a deferred call.
+func (ea *functionAnalysisState) transferCall(instr ssa.CallInstruction, g *EscapeGraph, args []*Node, rets []*Node) {
+	if builtin, ok := instr.Common().Value.(*ssa.Builtin); ok {
+		err := transferCallBuiltin(g, instr, builtin, args, rets)
+		if err != nil {
+			ea.prog.logger.Warnf("Warning, escape analysis does not handle builtin: %s", err)
+		}
+	} else if callee := instr.Common().StaticCallee(); callee != nil {
+		ea.transferCallStaticCallee(instr, g, args, rets)
+	} else if instr.Common().IsInvoke() {
+		// If no static callee, either we have an indirect call, e.g. t3(t4) or a method invocation,
+		// e.g. invoke t3.Method(t8, t13).
+		assertGraphInvariants(g)
+		ea.transferCallInvoke(instr, g, args, rets)
+		if err := wellFormedEscapeGraph(g); err != nil {
+			panic(err)
+		}
+	} else {
+		//  Indirect call callees can be closures, bound methods, regular named functions, or thunks.
+		ea.transferCallIndirect(instr, g, args, rets)
+	}
+}
+
+// transferRunDefers computes the effect of executing the deferred calls of the function. The
+// analysis does not track which defer statements have been executed, so every *ssa.Defer of the
+// function is treated as a call (without results) that happens at the RunDefers instruction. The
+// nodes of the argument values of a defer that was not executed have no out-edges at this point.
+func (ea *functionAnalysisState) transferRunDefers(runDefers *ssa.RunDefers, g *EscapeGraph) {
+	for _, block := range runDefers.Parent().Blocks {
+		for _, instr := range block.Instrs {
+			deferInstr, ok := instr.(*ssa.Defer)
+			if !ok {
+				continue
+			}
+			args := make([]*Node, len(deferInstr.Call.Args))
+			for i, arg := range deferInstr.Call.Args {
+				if IsEscapeTracked(arg.Type()) {
+					args[i] = ea.nodes.ValueNode(arg)
+				}
+			}
+			ea.transferCall(deferInstr, g, args, []*Node{})
+		}
+	}
+}
+
+func (ea *functionAnalysisState) transferCallStaticCallee(instrType ssa.CallInstruction, g *EscapeGraph, args []*Node, rets []*Node) {
 	// Handle calls where we know the callee
-	callee := instrType.Call.StaticCallee()
+	callee := instrType.Common().StaticCallee()
 	summary := ea.prog.getFunctionAnalysisSummary(callee)
 	if summary.HasSummaryGraph() {
 		// We can use the finalGraph pointer freely as it will never change after it is created
@@ -626,16 +657,16 @@ func (ea *functionAnalysisState) transferCallStaticCallee(instrType *ssa.Call, g
 		// For a immediately invoked func, the  value will be a MakeClosure, where we can get the
 		// freevars directly from. In this case, we don't need field sensitivity to align the right
 		// value, as we can directly get the corresponding node.
-		if mkClosure, ok := instrType.Call.Value.(*ssa.MakeClosure); ok {
+		if mkClosure, ok := instrType.Common().Value.(*ssa.MakeClosure); ok {
 			for _, fv := range mkClosure.Bindings {
 				freeVars = append(freeVars, ea.nodes.ValueNode(fv))
 			}
 		}
 		g.Call(g.Clone(), nil, args, freeVars, rets, summary.finalGraph)
-	} else if summary.summaryType == "reflect:ValueOf" {
+	} else if summary.summaryType == "reflect:ValueOf" && len(rets) > 0 { // rets is empty for deferred calls
 		unsafePtrTp := summary.function.Signature.Results().At(0).Type().Underlying().(*types.Struct).Field(1).Type()
 		g.WeakAssign(g.FieldSubnode(rets[0], "ptr", unsafePtrTp), args[0])
-	} else if summary.summaryType == "reflect:(Value).Interface" {
+	} else if summary.summaryType == "reflect:(Value).Interface" && len(rets) > 0 {
 		g.WeakAssign(rets[0], g.FieldSubnode(args[0], "ptr", nil))
 	} else if summary.summaryType == "reflect:JsonMarshal" {
 		ea.jsonMarshal(instrType, g, args, rets)
@@ -658,7 +689,7 @@ func (ea *functionAnalysisState) transferCallStaticCallee(instrType *ssa.Call, g
 
 // jsonMarshal implements the effect of a marshalling operation. This is essentially to call the
 // MarshalJSON method on all the reachable types from the argument node.
-func (ea *functionAnalysisState) jsonMarshal(instrType *ssa.Call, g *EscapeGraph, args []*Node, rets []*Node) {
+func (ea *functionAnalysisState) jsonMarshal(instrType ssa.CallInstruction, g *EscapeGraph, args []*Node, rets []*Node) {
 	prog := instrType.Parent().Pkg.Prog
 	marshalerInterface := lang.FindTypeByName(prog, "encoding/json", "Marshaler")
 	if marshalerInterface == nil {
@@ -691,7 +722,7 @@ func (ea *functionAnalysisState) jsonMarshal(instrType *ssa.Call, g *EscapeGraph
 // the pointees and computes which other types are reachable from those fields. It also handles the
 // case of unmarshaling into the "any" type, which causes the marshalling code to generate some
 // fixed types (map[string]any, []any, string, float64, etc.).
-func (ea *functionAnalysisState) jsonUnmarshal(instrType *ssa.Call, g *EscapeGraph, args []*Node, rets []*Node) {
+func (ea *functionAnalysisState) jsonUnmarshal(instrType ssa.CallInstruction, g *EscapeGraph, args []*Node, rets []*Node) {
 	prog := instrType.Parent().Pkg.Prog
 	marshalerInterface := lang.FindTypeByName(prog, "encoding/json", "Unmarshaler")
 	if marshalerInterface == nil {
@@ -770,7 +801,7 @@ func (ea *functionAnalysisState) jsonUnmarshal(instrType *ssa.Call, g *EscapeGra
 // invokeMethodDirectly is a helper method that applies the specific method identified in callee
 // with the given receiver node. This is useful for the json(Un)marshal methods as they need to
 // invoke the effects of custom marshal/unmarshaling functions (UnmarshalJSON, etc).s
-func (ea *functionAnalysisState) invokeMethodDirectly(instr *ssa.Call, g *EscapeGraph, callee *ssa.Function, receiver *Node, args []*Node, rets []*Node) {
+func (ea *functionAnalysisState) invokeMethodDirectly(instr ssa.CallInstruction, g *EscapeGraph, callee *ssa.Function, receiver *Node, args []*Node, rets []*Node) {
 	summary := ea.prog.getFunctionAnalysisSummary(callee)
 	if summary.HasSummaryGraph() {
 		// Record our use of this summary for recursion-covergence purposes
@@ -801,14 +832,14 @@ type closureFreeVarLoad struct {
 }
 
 //gocyclo:ignore
-func (ea *functionAnalysisState) transferCallIndirect(instrType *ssa.Call, g *EscapeGraph, args []*Node, rets []*Node) {
+func (ea *functionAnalysisState) transferCallIndirect(instrType ssa.CallInstruction, g *EscapeGraph, args []*Node, rets []*Node) {
 	// Handle indirect calls. The approach is the same for both indirect and invoke:
 	// Loop through all the different out-edges of the func value/receiver. If they are local, we
 	// know which MakeClosure/concrete type was used to create that node, so process the ssa.Function.
 	// If there are any out-edges to an non-local value (either leaked or escaped), then use the pointer
 	// analysis to over-approximate the set of possiblities, and then call each of those.
 	pre := g.Clone()
-	calleeNode := ea.nodes.ValueNode(instrType.Call.Value)
+	calleeNode := ea.nodes.ValueNode(instrType.Common().Value)
 	nonlocal := g.status[calleeNode] != Local
 	for closureNode := range g.Pointees(calleeNode) {
 		// The closure node represents the actual closure object.
@@ -911,12 +942,12 @@ func (ea *functionAnalysisState) transferCallIndirect(instrType *ssa.Call, g *Es
 	}
 }
 
-func (ea *functionAnalysisState) transferCallInvoke(instrType *ssa.Call, g *EscapeGraph, args []*Node, rets []*Node) {
+func (ea *functionAnalysisState) transferCallInvoke(instrType ssa.CallInstruction, g *EscapeGraph, args []*Node, rets []*Node) {
 	// Find the methods that it could be, according to pointer analysis
 	// Invoke each with each possible receiver
 	// Note: unlike for indirect calls, we do the full cross product of all possible method implementations
 	// with all receivers, even ones that we could deduce aren't possible.
-	receiverNode := ea.nodes.ValueNode(instrType.Call.Value)
+	receiverNode := ea.nodes.ValueNode(instrType.Common().Value)
 	if callees, err := ea.getCallees(instrType); err == nil {
 		pre := g.Clone()
 		for callee := range callees {
@@ -977,6 +1008,9 @@ func transferCallBuiltin(g *EscapeGraph, instr ssa.Instruction, builtin *ssa.Bui
 		return nil
 	case "recover": // We don't track panic values, so treat like an unknown call
 		g.CallUnknown(args, rets, "recover")
+		return nil
+	case "panic": // Only for `defer panic(x)`; same as the ssa.Panic instruction
+		g.CallUnknown(args, rets, "panic")
 		return nil
 	case "ssa:wrapnilchk": // treat as identity fucntion
 		g.WeakAssign(rets[0], args[0])
@@ -1513,7 +1547,18 @@ func EscapeAnalysis(state *dataflow.AnalyzerState, root *callgraph.Node) (*Progr
 		// Iterate over the places where this summary is used, and schedule them to be re-analyzed
 		for location, graphUsed := range summary.summaryUses {
 			if !summary.finalGraph.Matches(graphUsed) {
-				location.function.addToBlockWorklist(location.instruction.Block())
+				if _, isDefer := location.instruction.(*ssa.Defer); isDefer {
+					// The summary of a deferred call is applied where the defers are run
+					for _, block := range location.function.function.Blocks {
+						for _, instr := range block.Instrs {
+							if _, ok := instr.(*ssa.RunDefers); ok {
+								location.function.addToBlockWorklist(block)
+							}
+						}
+					}
+				} else {
+					location.function.addToBlockWorklist(location.instruction.Block())
+				}
 				// Add to the worklist if it isn't already there
 				found := false
 				for _, entry := range worklist {
